@@ -469,6 +469,9 @@ func (l *guardListener) Return(x *Explorer, st *State, ret *ssa.Return, res []Fa
 func (l *guardListener) End(x *Explorer, st *State, reason string)               {}
 
 // excludes: can two goroutines be in contexts a and b at the same time? (false = they exclude each other)
+// names of the store and per-type map types in the analysed tree (set by checkC08 from the anchors)
+var storeTypeName, mapTypeName = "objectStore", "objectMap"
+
 func excludes(field string, a, b *accessCtx) bool {
 	// handle lock: writer vs anyone holding it
 	if a.lk.H == 2 && b.lk.H >= 1 || b.lk.H == 2 && a.lk.H >= 1 {
@@ -479,12 +482,12 @@ func excludes(field string, a, b *accessCtx) bool {
 		return true
 	}
 	// the container's own lock (store lock for the store map, map lock for an inner map)
-	if strings.HasPrefix(field, "objectStore.") {
+	if strings.HasPrefix(field, storeTypeName+".") {
 		if a.lk.SW && b.lk.S > 0 || b.lk.SW && a.lk.S > 0 {
 			return true
 		}
 	}
-	if strings.HasPrefix(field, "objectMap.") {
+	if strings.HasPrefix(field, mapTypeName+".") {
 		if a.lk.MW && b.lk.M > 0 || b.lk.MW && a.lk.M > 0 {
 			return true
 		}
@@ -508,6 +511,9 @@ func checkC08(p *Prog, r *Result, tier string) {
 	r.NotDecided = []string{"linearizability proper (results equal to some sequential order): needs histories and a sequential oracle; race freedom is necessary for it, not sufficient", "a *Schema handed out by DB.Schema is a live pointer: direct field access by the caller is outside the handle API"}
 	r.Assumptions = []string{"Search and iterator values are owned by the calling goroutine", "user hook implementations do not touch the handle", "a store/map lock held while its map is accessed is the lock of that same instance (methods lock their receiver)"}
 	c := computeClosures(p)
+	if p.A.ObjectStore != nil && p.A.ObjectMap != nil {
+		storeTypeName, mapTypeName = p.A.ObjectStore.Obj().Name(), p.A.ObjectMap.Obj().Name()
+	}
 	var jobs []exploreJob
 	for _, f := range apiRoots(p) {
 		jobs = append(jobs, exploreJob{f, Valuation{}})
